@@ -187,9 +187,10 @@ structure CEnv where
 /-- big-endian bytes of a 64-bit amount -/
 def be64 (v : UInt64) : Bytes :=
   let n := v.toNat
-  [UInt8.ofNat (n / 2^56 % 256), UInt8.ofNat (n / 2^48 % 256), UInt8.ofNat (n / 2^40 % 256),
-   UInt8.ofNat (n / 2^32 % 256), UInt8.ofNat (n / 2^24 % 256), UInt8.ofNat (n / 2^16 % 256),
-   UInt8.ofNat (n / 2^8 % 256), UInt8.ofNat (n % 256)]
+  [UInt8.ofNat (n / 72057594037927936 % 256), UInt8.ofNat (n / 281474976710656 % 256),
+   UInt8.ofNat (n / 1099511627776 % 256), UInt8.ofNat (n / 4294967296 % 256),
+   UInt8.ofNat (n / 16777216 % 256), UInt8.ofNat (n / 65536 % 256),
+   UInt8.ofNat (n / 256 % 256), UInt8.ofNat (n % 256)]
 
 def parity (odd : Bool) : UInt8 := if odd then 1 else 0
 
@@ -291,7 +292,12 @@ structure CAmt where
   explicit : Nat
   confidential : Bytes
 
-def readBE64 (b : Bytes) : Nat := (b.take 8).foldl (fun acc x => acc * 256 + x.toNat) 0
+/-- `ReadBE64` -/
+def readBE64 : Bytes → Nat
+  | b0 :: b1 :: b2 :: b3 :: b4 :: b5 :: b6 :: b7 :: _ =>
+    ((((((b0.toNat * 256 + b1.toNat) * 256 + b2.toNat) * 256 + b3.toNat) * 256 + b4.toNat) * 256
+      + b5.toNat) * 256 + b6.toNat) * 256 + b7.toNat
+  | _ => 0
 
 /-- `copyRawConfidential` -/
 def copyRawConfidential : Option Bytes → CConf
